@@ -156,7 +156,7 @@ Print Assumptions C17_consumers_agree.
 
 (* well-formedness of the XML text: quick-junit's XmlString filter versus the XML 1.0 Char
    production. The full statement is refuted (finding F13); outside the two BMP non-characters
-   every kept scalar value is a legal XML character, and nothing legal is removed needlessly *)
+   every kept scalar value is a legal XML character *)
 Theorem C17_xml_chars_refuted :
   exists c, is_scalar c = true /\ xmlstring_keeps c = true /\ xml_char c = false.
 Proof. exact xmlstring_not_wellformed_witness. Qed.
@@ -168,10 +168,17 @@ Theorem C17_xml_chars_outside_known :
 Proof. exact xmlstring_outside_known. Qed.
 Print Assumptions C17_xml_chars_outside_known.
 
-Theorem C17_xml_chars_stripped_are_invalid :
-  forall c, xmlstring_keeps c = false -> xml_char c = false.
-Proof. exact xmlstring_strips_only_invalid. Qed.
-Print Assumptions C17_xml_chars_stripped_are_invalid.
+(* exactly what the filter keeps, and the legal characters it loses (TAB and CR: removed by the
+   escape stripper before the replace() filter that would have kept them sees them) *)
+Theorem C17_xml_chars_kept :
+  forall c, xmlstring_keeps c = true <-> (32 <= c \/ c = 10).
+Proof. exact xmlstring_keeps_spec. Qed.
+Print Assumptions C17_xml_chars_kept.
+
+Theorem C17_xml_chars_lost :
+  forall c, (xml_char c = true /\ xmlstring_keeps c = false) <-> (c = 9 \/ c = 13).
+Proof. exact xmlstring_lost_chars. Qed.
+Print Assumptions C17_xml_chars_lost.
 
 (* ------------------------------------------------------------------ non-vacuity (closed) *)
 
